@@ -1,4 +1,10 @@
 SPECIFICATION Spec
+CONSTANTS
+  Pre = {"none", "cmt", "doctype", "cempty"}
+  Open = {"oa", "oattr", "ons", "sc", "scsp"}
+  Content = {"none", "txt", "cdata", "nested"}
+  Close = {"ca", "cns", "cb", "none"}
+  Post = {"none", "sp", "elem2", "stray", "lt", "ltbang"}
 INVARIANTS BalancedWhenMatched StrayGoesNegative CutIsProperPrefix
 CONSTRAINT Emit
 CHECK_DEADLOCK FALSE
